@@ -59,6 +59,17 @@ CLAIMS = {
        "1..16 renders of every entry point are judged against a bound independent of k (FaultTrace.tla).",
   design_ref="DESIGN.md section 6 C12", technique="TLC liveness checking of the pipeline under sink faults + fault enumeration on the real code in child processes + TLC trace judgement",
   note=TB + " Fault points are enumerated per flush boundary for the streamed STL and sampled for the at-end writers; the two defects found (ToSTL hang, goroutine leak) are repaired by fix: commits 637e9cd and 9c26294."),
+ "C09": dict(
+  text="EvalPool.tla models the main goroutine(s), the W evaluation workers, the shared bounded channel, the WaitGroup, the "
+       "layer slots and the point buffers; TLC checks for all interleavings (W 1..3, 1-2 concurrent renders, 1-2 layers) that "
+       "every slot is written once with its own point, that no in-flight point buffer is reused and that the marching loop "
+       "always reads a complete correct layer. Every complete schedule of the W=2 model is then forced onto the real pool "
+       "through the hooks in render/march3.go on an exact scene whose layers need three real batches: the sequential "
+       "schedule is judged against the exact predicted mesh (UniTrace.tla), all others must give the identical triangle "
+       "sequence. Free runs under GOMAXPROCS 1..NumCPU, slow/yielding Evaluate, earlier and concurrent renders, all "
+       "sinks, are judged by a memo (DetTrace.tla).",
+  design_ref="DESIGN.md section 6 C09", technique="TLC exhaustive interleaving model + forced-schedule replay through a hook scheduler gate + TLC memo validation of output digests",
+  note=TB + " Forced schedules cover the evaluation pool; the writer side is covered by C11's schedules. Digests are SHA-256 prefixes."),
 }
 
 NOT_APPLICABLE = {}
